@@ -3,9 +3,9 @@ package main
 // Rate limiter rules (C05) and retry delay rules (C13).
 
 import (
-	"sort"
 	"fmt"
 	"go/types"
+	"sort"
 	"strconv"
 	"strings"
 
